@@ -2,7 +2,7 @@
 from props.common import lemma_tasks, other_tasks, contract_tasks, TRUSTED_CORE, SCHED_ASSUMPTIONS, CLOSURE_ASSUMPTION
 PROPERTY = "C07"
 def tasks(tier):
-    return (contract_tasks("contracts.scheduler", "C07")
+    return (contract_tasks("contracts.runner_init", "C07") + contract_tasks("contracts.scheduler", "C07")
             + contract_tasks("contracts.closure_ded", "C07") + lemma_tasks("contracts.closure_ded", "C07") + other_tasks("contracts.closure", "C07", "bounded") + other_tasks("contracts.determinism_bounded", "C07", "bounded")
             + contract_tasks("contracts.tiered_time", "C08"))
 TRUSTED_BASE = TRUSTED_CORE
